@@ -1084,3 +1084,62 @@ Proof.
   intros z y Hy. destruct (H3 z y Hy) as [A [B C]]. split; [exact A|]. split; [exact B|].
   apply is_match_false. exact C.
 Qed.
+
+(* the same at the level of rule kinds (uses the generated fact abstract_pick_by_kind) *)
+Lemma nonmatch_node_TN K r ks : nonmatch_node K (TN r ks) = negb (is_match (K r)).
+Proof. reflexivity. Qed.
+
+Definition plain_node (K : nat -> kind) (p : tree) : Prop :=
+  (exists s, p = TT s) \/ (exists q qs, p = TN q qs /\ K q = KMatch).
+
+Theorem abstract_first_nonmatch_kinds K r pre r' ks post :
+  K r = KAbstract -> (forall p, In p pre -> plain_node K p) -> K r' <> KMatch ->
+  process K (TN r (pre ++ TN r' ks :: post)) = process K (TN r' ks).
+Proof.
+  intros Hr Hp Hk. apply abstract_first_nonmatch; [exact Hr | |].
+  - intros p Hin. destruct (Hp p Hin) as [[s ->]|[q [qs [-> Hq]]]]; [reflexivity|].
+    rewrite nonmatch_node_TN, Hq. reflexivity.
+  - rewrite nonmatch_node_TN. apply negb_true_iff. apply is_match_false. exact Hk.
+Qed.
+
+(* ------------------------------------------------------------------ objects come from nodes of the tree *)
+Lemma node_rules_TN r kids : node_rules (TN r kids) = r :: flat_map node_rules kids.
+Proof. reflexivity. Qed.
+
+Lemma node_rules_TA kids : node_rules (TA kids) = flat_map node_rules kids.
+Proof. reflexivity. Qed.
+
+Lemma In_flat_map_intro {A B} (f : A -> list B) l x y : In x l -> In y (f x) -> In y (flat_map f l).
+Proof. intros H1 H2. apply in_flat_map. exists x. auto. Qed.
+
+Theorem objs_from_nodes K : forall t c, In c (objs (process K t)) -> K c = KCommon /\ In c (node_rules t).
+Proof.
+  assert (G : forall t, (forall c, In c (objs (process K t)) -> In c (node_rules t)) /\
+                        match t with TA ks => Forall (fun k => forall c, In c (objs (process K k)) -> In c (node_rules k)) ks | _ => True end).
+  { induction t as [s|r kids IH|kids IH] using tree_ind'.
+    - split; [intros c [] | exact I].
+    - split; [|exact I]. rewrite node_rules_TN.
+      assert (Hin : forall k, In k kids -> forall c, In c (objs (process K k)) -> In c (r :: flat_map node_rules kids)).
+      { intros k Hk c Hc. right. rewrite Forall_forall in IH. apply (In_flat_map_intro node_rules kids k c Hk). apply (proj1 (IH k Hk)). exact Hc. }
+      destruct (K r) eqn:E.
+      + rewrite (process_match K r kids E). intros c [].
+      + rewrite (process_abstract K r kids E). unfold abstract_result.
+        destruct kids as [|k1 [|k2 kids]]; [intros c [] | apply Hin; left; reflexivity|].
+        destruct (pick_nm K (k1 :: k2 :: kids)) eqn:Pk; [apply Hin; apply (pick_nm_In K _ _ Pk)|].
+        destruct (first_nt (k1 :: k2 :: kids)) eqn:Fk; [apply Hin; apply (first_nt_In _ _ Fk) | intros c []].
+      + rewrite (process_common K r kids E). intros c Hc. rewrite objs_VObj in Hc. destruct Hc as [<-|Hc]; [left; reflexivity|].
+        right. clear Hin. induction IH as [|k kids Hk _ IHl]; [destruct Hc|].
+        destruct k as [s|r' ks|ks];
+          [simpl in Hc |- *; apply IHl; exact Hc
+          |change (In c (node_rules (TN r' ks) ++ flat_map node_rules kids)); apply in_or_app; right; apply IHl; exact Hc|].
+        simpl in Hc |- *.
+        change (In c (flat_map objs (map (process K) ks ++ vals_of K kids))) in Hc.
+        rewrite flat_map_app in Hc. apply in_app_or in Hc as [Hc|Hc]; [|apply in_or_app; right; apply IHl; exact Hc].
+        apply in_or_app. left. change (In c (flat_map node_rules ks)). destruct Hk as [_ Hks]. clear - Hks Hc.
+        induction Hks as [|a ks Ha _ IHk]; simpl in *; [destruct Hc|].
+        apply in_app_or in Hc as [Hc|Hc]; apply in_or_app; [left; apply Ha; exact Hc | right; apply IHk; exact Hc].
+    - split; [intros c []|]. rewrite Forall_forall in *. intros k Hk. apply (proj1 (IH k Hk)). }
+  intros t c Hc. split.
+  - assert (F := only_common_instances K t). unfold all_common in F. rewrite Forall_forall in F. apply F. exact Hc.
+  - apply (proj1 (G t)). exact Hc.
+Qed.
